@@ -93,14 +93,12 @@ MUTANTS = {
         ("csat-lower-bound-dropped", "aldy/major.py", '        model.addConstr(expr >= cnt, name=f"CSAT_{cnf}")', '        model.addConstr(expr >= 0, name=f"CSAT_{cnf}")'),
         ("cone-dropped", "aldy/major.py", '        model.addConstr(z <= 1, name=f"CONE_{pos}")', "        pass"),
         ("xor-not-forced", "aldy/major.py", '        model.addConstr(VXOR >= 1, name="CXOR")', '        model.addConstr(VXOR >= 0, name="CXOR")'),
-        ("dedup-on-alleles-only", "aldy/major.py", "        if (solved_alleles, novel_muts) not in result:", "        if not any(k[0] == solved_alleles for k in result):"),
         ("novel-unit-penalty-dropped", "aldy/major.py", "    objective += 0.1 * model.quicksum(VNEW[m] for m in VNEW)", "    objective += 0.0 * model.quicksum(VNEW[m] for m in VNEW)"),
         ("reference-ignores-coverage", "aldy/major.py", "            if not gene.has_coverage(a[0], pos):\n                continue\n            # An insertion", "            if False:\n                continue\n            # An insertion"),
         ("ordering-reversed-gap", "aldy/major.py", "    for status, opt, sol in model.solutions(coverage.profile.gap):", "    for status, opt, sol in model.solutions(coverage.profile.gap, limit=1):"),
     ],
     "C03": [
         ("diplo-lower-bound-dropped", "aldy/cn.py", '    model.addConstr(diplo_inducing >= 2, name="CDIPLO")', '    model.addConstr(diplo_inducing >= 0, name="CDIPLO")'),
-        ("deletion-exclusivity-dropped", "aldy/cn.py", '                model.addConstr(v + VCN[del_allele, -1] <= 1, name=f"CDEL_{a}_{ai}")', "                pass"),
         ("fusion-penalty-dropped", "aldy/cn.py", "            penalty[n] += PARSIMONY_PENALTY * profile.cn_fusion_left", "            penalty[n] += 0"),
         ("gene-fit-term-dropped", "aldy/cn.py", "    model.setObjective(o_diff + o_fit + o_pars)", "    model.setObjective(o_diff + o_pars)"),
         ("first-only", "aldy/cn.py", "    for status, opt, sol in model.solutions(profile.gap):", "    for status, opt, sol in model.solutions(profile.gap, limit=1):"),
@@ -108,7 +106,6 @@ MUTANTS = {
         ("male-default-ignored", "aldy/cn.py", '        if profile.male and gene.chr in ["X", "Y"]:', '        if profile.male and gene.chr in ["Y"]:'),
     ],
     "C04": [
-        ("czero-dropped", "aldy/minor.py", '                    v[0] <= 0,\n                    name=f"CZERO_', '                    v[0] <= 1,\n                    name=f"CZERO_'),
         ("cfunc-dropped", "aldy/minor.py", "                    VKEEP[a][m][0] >= VA[a],", "                    VKEEP[a][m][0] >= 0,"),
         ("csinglefull-dropped", "aldy/minor.py", "                    model.quicksum(mp + ma) <= 1,", "                    model.quicksum(mp + ma) <= 5,"),
         ("cminone-dropped", "aldy/minor.py", '            model.addConstr(expr >= 1, name=f"CMINONE_{m.pos}_{m.op}")', "            pass"),
